@@ -116,3 +116,45 @@ Print Assumptions C18_uri_tls_iff_scheme.
 Print Assumptions C18_uri_string_roundtrip.
 Print Assumptions C18_uri_model_satisfies_predicate.
 Print Assumptions C18_generated_ok.
+
+(* ---- the source itself refines the model: rpc/remote.go's resetLocked/Reset/GetAddress/Peek, translated statement
+   by statement (Generated.golite_funcs) and run by the GoLite interpreter (Model/GoLite.v), compute exactly
+   Remote.reset/get/peek on EVERY model state; index-out-of-range panics correspond to the model's None.
+   rand.Perm is an arbitrary oracle returning permutations of 0..k-1. ---- *)
+From FMP Require Import Model.GoLite Proofs.GoLiteProofs.
+
+Section SourceRefinement.
+  Variable permI : nat -> nat -> list nat.
+  Hypothesis permI_ok : forall n k, Permutation (permI n k) (seq 0 k).
+
+  Theorem C18_source_reset_refines_model : forall fuel r, (2 <= fuel)%nat ->
+      run_fun permI fuel golite_funcs name_reset (repr r) =
+      RNormal (with_mutex 1 1 (repr (Remote.reset (GoLiteProofs.perm permI) r))).
+  Proof. exact (golite_reset_refines permI permI_ok). Qed.
+
+  Theorem C18_source_get_refines_model : forall fuel r,
+      (2 + length (Remote.addrs r) + length (Remote.iter r) <= fuel)%nat ->
+      match Remote.get (GoLiteProofs.perm permI) r with
+      | (Some a, r') => run_fun permI fuel golite_funcs name_get (repr r) =
+                        RReturn (VStr a) (with_mutex 1 1 (repr r'))
+      | (None, _) => run_fun permI fuel golite_funcs name_get (repr r) = RPanic PIndex
+      end.
+  Proof. exact (golite_get_refines permI permI_ok). Qed.
+
+  Theorem C18_source_peek_refines_model : forall fuel r, (2 <= fuel)%nat ->
+      match Remote.peek (GoLiteProofs.perm permI) r with
+      | (Some a, r') => run_fun permI fuel golite_funcs name_peek (repr r) =
+                        RReturn (VStr a) (with_mutex 1 1 (repr r'))
+      | (None, _) => run_fun permI fuel golite_funcs name_peek (repr r) = RPanic PIndex
+      end.
+  Proof. exact (golite_peek_refines permI permI_ok). Qed.
+End SourceRefinement.
+
+(* nothing of the five translated bodies fell outside the translator's subset *)
+Theorem C18_source_translation_complete : no_unsupported golite_funcs = true.
+Proof. exact golite_no_unsupported. Qed.
+
+Print Assumptions C18_source_reset_refines_model.
+Print Assumptions C18_source_get_refines_model.
+Print Assumptions C18_source_peek_refines_model.
+Print Assumptions C18_source_translation_complete.
